@@ -109,7 +109,7 @@ PROPS = {
     },
     "C16": {
         "level": "proof",
-        "rules": [("GL", 9, hasnot("GL3", "component-cache"))],
+        "rules": [("GL", 8, hasnot("GL3", "component-cache"))],
         "explanation": "Complete structural argument for the first sentence: Lru::get returns Some(e.val) only under the "
                        "true edge of e.key == key (GL1); insert writes one Element{key,val,hash} of its own arguments into "
                        "the slot that get reads, grow re-inserts whole triples (GL2); the adapter's hash is a function of "
@@ -118,7 +118,7 @@ PROPS = {
     },
     "C17": {
         "level": "other",
-        "rules": [("DP", 12, has("from_sexpr", "VTreeSerializer", "from_dimacs")), ("IC", 1, has("from_dimacs"))],
+        "rules": [("DP", 11, has("from_sexpr", "VTreeSerializer", "from_dimacs")), ("IC", 1, has("from_dimacs"))],
         "explanation": "The s-expression translation and the vtree mirror map each variant to its namesake with children in "
                        "order (DP); DIMACS signs map Neg to false and Pos to true in both parsers (DP); the CNF parser "
                        "subtracts one from the 1-based DIMACS variable (IC OneBased -> Index). Not decided: model-level "
